@@ -7,13 +7,14 @@
 
    The total summary (40 bytes at the summary offset) and the zoom levels are computed in the real
    writer by coverage sweeps over the entries (process_val's add_interval_to_summary, process_val_zoom);
-   those sweeps are modelled in Model/BedSweep.v by someone else.  Here they are PARAMETERS
+   those sweeps are modelled in Model/BedSweep.v (C06/C08).  Here they are PARAMETERS
    ([sweep], [zoom_part]) of [bb_write_gen]; nothing else in the file depends on them (the data
    sections, the chromosome tree, the index and every header field except the zoom count precede
-   the zoom data and do not depend on the summary).
+   the zoom data and do not depend on the summary).  [bb_write] / [bb_write_multipass] at the end
+   instantiate them with the BedSweep functions: the complete byte image of the file.
    No proofs in this file. *)
 From BT Require Import Base.Util Base.LE Base.Float Generated.Consts Model.RTree Model.BBIFile Model.BigWigWrite.
-From BT Require Model.AutoSql.
+From BT Require Model.AutoSql Model.BedSweep.
 Local Open Scope N_scope.
 
 Record entry := { e_start : N; e_end : N; e_rest : list N }.   (* rest = UTF-8 bytes of the rest of the line *)
@@ -23,6 +24,7 @@ Definition E_BED_START_GT_END := 40.   (* "Invalid bed: {start} > {end}" *)
 Definition E_BED_START_GE_LEN := 41.   (* "Invalid bed: `{start}` is greater than the chromosome ... length" *)
 Definition E_BED_UNSORTED := 42.       (* "Invalid bed: not sorted on chromosome ..." *)
 Definition E_BED_AUTOSQL_NUL := 43.    (* "Invalid autosql: null byte in string" *)
+Definition E_BED_OPTIONS := 80.        (* "Invalid options: block_size must be at least 2 / items_per_slot must be at least 1" *)
 
 (* ---- process_val: the three precondition checks, in source order ---- *)
 Definition check_entry (len : N) (cur : entry) (next : option entry) : res unit :=
@@ -79,7 +81,8 @@ Definition bruns (l : list bitem) : list (name * list entry) :=
 Record bchrom := { bc_id : N; bc_name : name; bc_len : N; bc_entries : list entry }.
 
 (* process_to_bbi in stream order: for each run the chromosome order check against the previous
-   run, the size lookup (unknown chromosome), the id assignment, then the per-entry checks *)
+   run, the size lookup (unknown chromosome), the "seen before" check, the id assignment, then the
+   per-entry checks *)
 Fixpoint process_bruns (o : opts) (sizes : list (name * N)) (prev : option name) (ids : idmap)
          (rs : list (name * list entry)) : res (idmap * list bchrom) :=
   match rs with
@@ -92,10 +95,16 @@ Fixpoint process_bruns (o : opts) (sizes : list (name * N)) (prev : option name)
       match lookup c sizes with
       | None => Err E_UNKNOWN_CHROM
       | Some len =>
-          let (ids', id) := get_id ids c in
-          do _ <- check_entries len es;
-          do (ids'', outs) <- process_bruns o sizes (Some c) ids' rest;
-          Ok (ids'', {| bc_id := id; bc_name := c; bc_len := len; bc_entries := es |} :: outs)
+          (* a chromosome whose run reappears is refused (/repo 6b10d42): checked in start_processing
+             after the size lookup and before an id is handed out *)
+          match lookup c ids with
+          | Some _ => Err E_CHROM_SPLIT
+          | None =>
+              let (ids', id) := get_id ids c in
+              do _ <- check_entries len es;
+              do (ids'', outs) <- process_bruns o sizes (Some c) ids' rest;
+              Ok (ids'', {| bc_id := id; bc_name := c; bc_len := len; bc_entries := es |} :: outs)
+          end
       end
   end.
 
@@ -129,6 +138,8 @@ Definition bb_schema (autosql : option (list N)) : res (list N * N) :=
 Definition bb_write_gen (sweep : list bchrom -> summary)
            (zoom_part : list bchrom -> summary -> N -> N -> res (list N * list zoom_header))
            (o : opts) (sizes : list (name * N)) (autosql : option (list N)) (input : list bitem) : res (list N) :=
+  (* bbiwrite.rs check_options, before anything is written (/repo 67ae335) *)
+  if (o_bs o <? 2) || (o_ips o <? 1) then Err E_BED_OPTIONS else
   do (sql, fc) <- bb_schema autosql;
   do (ids, outs) <- bb_collect o sizes input;
   do data <- bb_data o outs;
@@ -140,3 +151,39 @@ Definition bb_write_gen (sweep : list bchrom -> summary)
    chromosomes, entries, autoSql, field counts and the item count is computed from *)
 Definition bb_write_nosweep : opts -> list (name * N) -> option (list N) -> list bitem -> res (list N) :=
   bb_write_gen (fun _ => summary_zero) (fun _ _ _ _ => Ok ([], [])).
+
+(* ---- the complete writers: summary and zoom levels from Model/BedSweep.v ---- *)
+Definition to_sw (x : entry) : BedSweep.entry :=
+  {| BedSweep.e_start := e_start x; BedSweep.e_end := e_end x; BedSweep.e_rest := e_rest x |}.
+Definition sw_entries (c : bchrom) : list BedSweep.entry := map to_sw (bc_entries c).
+
+(* the advance closure's fold of the per-chromosome summaries *)
+Definition bb_sweep (fp : fpmode) (outs : list bchrom) : summary :=
+  BedSweep.bb_total_summary fp (map sw_entries outs).
+
+(* the sections one zoom level receives: per chromosome in stream order, the record lists
+   process_val_zoom hands to encode_zoom_section *)
+Definition bb_zoom_level (fp : fpmode) (o : opts) (outs : list bchrom) (size : N) : res zoom_level :=
+  do secs <- concat_res (map (fun c => do recs <- BedSweep.bb_zoom_records fp (o_ips o) size (bc_id c) (sw_entries c);
+                                       mapM (encode_zoom_section fp) recs) outs);
+  Ok {| zl_res := size; zl_secs := secs |}.
+
+(* BigBedWrite::write: every candidate level is computed, write_zooms selects *)
+Definition bb_zoom_single (fp : fpmode) (o : opts) (outs : list bchrom) (sum : summary) (data_size zpos : N)
+  : res (list N * list zoom_header) :=
+  do zooms <- mapM (bb_zoom_level fp o outs) (zoom_sizes_single o);
+  write_zooms_loop o data_size zpos zooms None 0.
+Definition bb_write (fp : fpmode) (o : opts) : list (name * N) -> option (list N) -> list bitem -> res (list N) :=
+  bb_write_gen (bb_sweep fp) (bb_zoom_single fp o) o.
+
+(* BigBedWrite::write_multipass: BigBedNoZoomsProcess counts the records each resolution of the
+   ladder would need, write_zoom_vals selects the resolutions and writes every selected level *)
+Definition chrom_out_of (c : bchrom) : chrom_out :=
+  {| co_id := bc_id c; co_name := bc_name c; co_len := bc_len c; co_vals := map BedSweep.value_of_entry (sw_entries c) |}.
+Definition bb_zoom_two_pass (fp : fpmode) (o : opts) (outs : list bchrom) (sum : summary) (data_size zpos : N)
+  : res (list N * list zoom_header) :=
+  let zsizes := zoom_sizes_two_pass o sum (total_zoom_counts (map chrom_out_of outs)) data_size in
+  do zooms <- mapM (bb_zoom_level fp o outs) zsizes;
+  write_zooms_two_pass o zpos zooms.
+Definition bb_write_multipass (fp : fpmode) (o : opts) : list (name * N) -> option (list N) -> list bitem -> res (list N) :=
+  bb_write_gen (bb_sweep fp) (bb_zoom_two_pass fp o) o.
